@@ -17,4 +17,5 @@ CONSTANTS
 INIT TraceInit
 NEXT TraceNext
 INVARIANT Report
+VIEW TraceView
 CHECK_DEADLOCK FALSE
